@@ -15,9 +15,12 @@ Strings are byte lists (`List Nat`, no NUL inside).  Every C buffer the code wri
 bytes, stays in the log, and makes `Mem.oob` true.  `size_t` subtractions that can wrap in the
 code (`max_line_length - 1`, `max_line_length - output_buffer_idx`) go through `subSZ`.
 
-The model follows the code AFTER the repairs proposed in /verif/fixes (D7 D7b D8 D8b D9c D9d D9e;
-D9 is the constant `Gen.LOG_FORMAT_SET_BUF`, read from the source on every run); `Variant` switches
-each repair off again, `Variant.original` is the code as found (used for refutation witnesses).
+`Variant.repaired` is the code AS IT IS in /repo: the repairs D7 D7b D8 D8b D9c D9d are `fix:`
+commits there (D9 is the constant `Gen.LOG_FORMAT_SET_BUF`, read from the source on every run).
+`Variant` switches each repair off again; `Variant.original` is the code as found (used for
+refutation witnesses).  The flag `d9e` is a what-if that was NOT applied: `_strcpy_cutoff` keeps its
+`if (buf_len == 0) dest[0] = 0;` (a write with no room at all); neither caller can pass
+`buf_len < 2` (`Props.C13.caller_buf_len_ge_two`, proved from the ghost log `Mem.cuts`).
 
 Outside the model (parameters): libc `vsnprintf` (the message expansion arrives as a byte list),
 `localtime_r`/`snprintf` for %t/%T (opaque strings in `Fields`), `getpid`/`gethostname` results,
@@ -47,11 +50,12 @@ structure Variant where
   d9c : Bool
   /-- both format loops: do not step over the terminating NUL -/
   d9d : Bool
-  /-- _strcpy_cutoff: `buf_len == 1` instead of `buf_len == 0` -/
+  /-- _strcpy_cutoff: `buf_len == 1` instead of `buf_len == 0` (what-if, NOT in /repo) -/
   d9e : Bool
   deriving DecidableEq, Repr
 
-def Variant.repaired : Variant := ⟨true, true, true, true, true, true, true⟩
+/-- the code as it is in /repo now -/
+def Variant.repaired : Variant := ⟨true, true, true, true, true, true, false⟩
 def Variant.original : Variant := ⟨false, false, false, false, false, false, false⟩
 
 /-! ### memory with an access log -/
@@ -62,10 +66,13 @@ structure Mem where
   wr : List Int
   /-- indices read, most recent first -/
   rd : List Int
+  /-- ghost: the `buf_len` arguments of the `_strcpy_cutoff` calls made on this buffer, most recent
+      first (used to state what the callers guarantee) -/
+  cuts : List Nat
   deriving Repr
 
 /-- a fresh buffer of `cap` bytes with unspecified content `fill` -/
-def Mem.fresh (cap fill : Nat) : Mem := ⟨Array.replicate cap fill, [], []⟩
+def Mem.fresh (cap fill : Nat) : Mem := ⟨Array.replicate cap fill, [], [], []⟩
 
 def Mem.cap (m : Mem) : Nat := m.data.size
 
@@ -182,8 +189,8 @@ def strcpyCutoff (v : Variant) (src : Bytes) (cutoff : Nat) (ralign : Bool) (buf
 def Mem.cutoffAt (m : Mem) (v : Variant) (idx : Nat) (src : Bytes) (cutoff : Nat) (ralign : Bool)
     (bufLen : Nat) : Mem × Nat :=
   match strcpyCutoff v src cutoff ralign bufLen with
-  | none => (m, 0)
-  | some text => (m.writeAll idx (text ++ [0]), text.length)
+  | none => ({ m with cuts := bufLen :: m.cuts }, 0)
+  | some text => (({ m with cuts := bufLen :: m.cuts } : Mem).writeAll idx (text ++ [0]), text.length)
 
 /-! ### directive expansions -/
 
